@@ -1567,6 +1567,12 @@ var shapeTargets = []shapeTarget{
 	{"internal/transfer", "RecvManifestMultiStream", "", "assign:registered", "filewait_ready_pred"},
 	{"internal/transfer", "RecvManifestMultiStream", "", "args:fileReady.signal", "filewait_signal_args"},
 	{"internal/transfer", "RecvManifestMultiStream", "", "seq:stateByKey[key] = state|fileReady.signal(key)|state := stateByKey[fileKey]|verifhook.Point(\"recv.reader.before_wait\", fileKey)", "filewait_order"},
+	// the mailbox registries (Model/FileWait, namespace Mailbox): look-up-or-register / hand-over-or-leave in one critical section
+	{"internal/transfer", "wait", "fileDoneRegistry", "body-head:5", "mailbox_done_wait"},
+	{"internal/transfer", "deliver", "fileDoneRegistry", "body-stmts", "mailbox_done_deliver"},
+	{"internal/transfer", "wait", "resumeInfoRegistry", "body-head:5", "mailbox_resume_wait"},
+	{"internal/transfer", "deliver", "resumeInfoRegistry", "body-stmts", "mailbox_resume_deliver"},
+	{"internal/transfer", "wait", "streamRegistry", "body-head:5", "mailbox_stream_wait"},
 	// file scheduler: aging and the pending filters (Model/Sched has no clock)
 	{"internal/scheduler", "effectiveClass", "HybridScheduler", "body-stmts", "sched_effective_class"},
 	{"internal/scheduler", "pendingByClass", "HybridScheduler", "if-all", "sched_pending_small_ifs"},
